@@ -14,6 +14,36 @@ import (
 	"verif/checker/internal/report"
 )
 
+// round6Text: the sentence added to each property's explanation for the rules of this file.
+var round6Text = map[string]string{
+	"C01": "the park primitive sets and signals under its lock; Invoke.TraceID has no writer but the receivers of the request.",
+	"C02": "RenderInteropError recognises both refusal sentinels; the runtime automaton and its locking wrappers are checked here too.",
+	"C03": "the listing loop runs over the whole directory listing.",
+	"C04": "GetSubscribed*Agents lists exactly the IsSubscribed extensions; the tracing object is omitted only for an empty header; handlers answer once.",
+	"C05": "the reservation is cancelled inside the server's critical section; an exit notification closes its channel exactly once; no new wait under a lock.",
+	"C06": "bytes of a pooled buffer do not escape; callers of Server.Release are tabled; the synthetic init error is cached only when none is; the invoke steps fail the invocation when they fail; barriers are re-armed with Reset.",
+	"C07": "the sandbox keeps the init request's own environment object; the buffered direct-invoke path always reports; map writes need the exclusive lock; a failed wait for init carries type and message; a started process is registered and watched.",
+	"C08": "lock pairing on every path; the function metadata is written by SetFunctionMetadata only.",
+	"C09": "termination signals have a single owner and the front end never stops its own server; every reset passes its reason and deadline to the choreography.",
+	"C10": "callers of Server.Release are tabled; the body read is the request's own.",
+	"C12": "RenderInteropError recognises both refusal sentinels.",
+	"C13": "function metadata survives resets; registration is refused with the documented types only; the reply carries the identifier header.",
+	"C14": "the response handler hands on request.Body itself; no MaxBytes/Timeout wrapper in front of the API router.",
+	"C16": "every entry of the exec request's environment is passed on; SetHandler always stores; builder settings precede Create.",
+	"C17": "the reservation token compared comes from the URL; recognised modes are returned as declared constants; the buffered path always reports.",
+	"C18": "SetCredentials always stores; in snapshot mode the environment is filled by the variant that takes no credentials.",
+	"C19": "a started process is registered and watched.",
+	"C20": "bytes of a pooled buffer do not escape.",
+}
+
+// (a package-level initialiser: it runs before the init functions that register the properties)
+var _ = func() bool {
+	for id, t := range round6Text {
+		round5Text[id] += " Added after the sixth blind round (DESIGN 10.15): " + t
+	}
+	return true
+}()
+
 func init() {
 	add := func(id string, fs ...func(*report.Ctx)) { round5Rules[id] = append(round5Rules[id], fs...) }
 	add("C01", checkManagedThread, checkTraceIDWriters)
